@@ -41,14 +41,14 @@ Theorem order_complete_thm calls tr s : NoDup (map c_id calls) -> reach calls tr
 Proof. intros Hnd. now apply order_final. Qed.
 
 (* ---- no deadlock in the safe class ---- *)
-Lemma rank_of_le calls l : rank_of calls l <= 2.
-Proof. unfold rank_of. destruct (Nat.eqb l L_root); [lia|]. destruct (memn l (post calls)); lia. Qed.
+Lemma rank_of_le calls l : rank_of calls l <= 3.
+Proof. unfold rank_of. destruct (Nat.eqb l L_root); [lia|]. destruct (memn l (post calls)); [lia|]. destruct (is_user_iface l); lia. Qed.
 
 Theorem safe_progress calls tr s : safe calls = true -> reach calls tr s ->
   (exists lb s', step lb s = Some s') \/ all_done s.
 Proof.
   intros Hs Hr. destruct (ok_reach (rank_of calls) calls tr s Hs Hr) as [Hw Ho].
-  apply (progress (rank_of calls) 2 (rank_of_le calls) s Hw Ho).
+  apply (progress (rank_of calls) 3 (rank_of_le calls) s Hw Ho).
 Qed.
 
 Theorem all_reply_thm calls tr s : NoDup (map c_id calls) -> safe calls = true -> reach calls tr s ->
@@ -102,81 +102,114 @@ Qed.
 
 Lemma iface_not_root k : Nat.eqb (L_iface k) L_root = false.
 Proof. apply Nat.eqb_neq. unfold L_iface, L_root. lia. Qed.
-
-Lemma plain_under_root c : plain_method c = true -> under_root false (body c) = [].
+Lemma props_not_root k : Nat.eqb (L_props k) L_root = false.
+Proof. apply Nat.eqb_neq. unfold L_props, L_root. lia. Qed.
+Lemma iface_is_user k : is_user_iface (L_iface k) = true.
 Proof.
-  unfold plain_method, body. intros Hp.
+  unfold is_user_iface, L_iface. apply Nat.eqb_eq. rewrite Nat.add_comm, Nat.mul_comm, Nat.mod_add by lia. reflexivity.
+Qed.
+Lemma props_not_user k : is_user_iface (L_props k) = false.
+Proof.
+  unfold is_user_iface, L_props. apply Nat.eqb_neq. rewrite Nat.add_comm, Nat.mul_comm, Nat.mod_add by lia. cbn. lia.
+Qed.
+
+(* a plain handler (method or property handler; await / at / remove) requests nothing while it holds the root lock *)
+Lemma plain_under_root c : plain_handler c = true -> under_root false (body c) = [].
+Proof.
+  unfold plain_handler, body. intros Hp.
   assert (Hh : forallb plain_op (c_script c) = true -> under_root false (handler c) = [] /\ root_after false (handler c) = false).
   { intros H. unfold handler. cbn [under_root root_after]. rewrite under_root_app, root_after_app.
     destruct (plain_ops_root (c_id c) (c_script c) H 0) as [-> ->]. cbn. auto. }
-  destruct (c_kind c); try discriminate; try reflexivity; destruct (Hh Hp) as [H1 H2].
-  - cbn [app under_root]. rewrite iface_not_root. rewrite under_root_app, H1, H2. cbn [app under_root]. rewrite ?iface_not_root. reflexivity.
-  - cbn [app under_root]. rewrite iface_not_root. rewrite under_root_app, H1, H2. cbn [app under_root]. rewrite ?iface_not_root. reflexivity.
+  assert (Hrr : Nat.eqb L_root L_root = true) by apply Nat.eqb_refl.
+  destruct (c_kind c); try discriminate; try reflexivity; destruct (Hh Hp) as [H1 H2];
+    cbn [app under_root]; rewrite ?iface_not_root, ?props_not_root, ?Hrr; cbn [under_root];
+    rewrite ?iface_not_root, ?props_not_root, ?Hrr;
+    repeat (rewrite under_root_app, ?H1, ?H2; cbn [app under_root]; rewrite ?root_after_app, ?H2);
+    cbn [app under_root]; rewrite ?iface_not_root, ?props_not_root; reflexivity.
 Qed.
 
-Lemma methods_post calls : methods_only calls = true -> post calls = [].
+Lemma handlers_post calls : handlers_only calls = true -> post calls = [].
 Proof.
-  unfold methods_only, post. induction calls as [|c l IH]; cbn; [reflexivity|]. intros H. apply andb_prop in H.
+  unfold handlers_only, post. induction calls as [|c l IH]; cbn; [reflexivity|]. intros H. apply andb_prop in H.
   destruct H as [Hc Hl]. rewrite (plain_under_root c Hc), IH by assumption. reflexivity.
 Qed.
 
 Section PlainDisc.
   Variable rank : lock -> nat.
-  Hypothesis rank_root : rank L_root = 1.
-  Hypothesis rank_iface : forall k, rank (L_iface k) = 0.
+  Hypothesis rank_root : rank L_root = 2.
+  Hypothesis rank_iface : forall k, rank (L_iface k) = 1.
+  Hypothesis rank_props : forall k, rank (L_props k) = 0.
   Variable sp : call -> bool.
 
   Lemma disc_taus H n q : disc_gen rank sp H (repeat ITau n ++ q) = disc_gen rank sp H q.
   Proof. induction n; cbn; auto. Qed.
 
-  Lemma disc_plain_ops c k m ops : forallb plain_op ops = true -> forall j q,
-    disc_gen rank sp [(L_iface k, m)] (c_ops c j ops ++ q) = disc_gen rank sp [(L_iface k, m)] q.
+  (* holding only guards that rank below the root lock, every plain operation leaves the held set as it was *)
+  Lemma disc_plain_ops c H ops : below rank H L_root = true -> forallb plain_op ops = true -> forall j q,
+    disc_gen rank sp H (c_ops c j ops ++ q) = disc_gen rank sp H q.
   Proof.
-    induction ops as [|o r IH]; intros Hp j q; cbn [c_ops app]; [reflexivity|].
+    intros Hb. induction ops as [|o r IH]; intros Hp j q; cbn [c_ops app]; [reflexivity|].
     cbn [forallb] in Hp. apply andb_prop in Hp. destruct Hp as [Ho Hr]. rewrite <- app_assoc.
     unfold c_op. destruct o; cbn in Ho; try discriminate.
     - rewrite <- app_assoc. rewrite disc_taus. cbn [app disc_gen]. now apply IH.
-    - cbn [app disc_gen below forallb fst]. rewrite rank_root, rank_iface. cbn [Nat.ltb Nat.leb andb].
-      unfold memlm. cbn [existsb]. rewrite lm_eqb_refl. cbn [orb remove_lm]. rewrite lm_eqb_refl. now apply IH.
-    - cbn [app disc_gen below forallb fst]. rewrite rank_root, rank_iface. cbn [Nat.ltb Nat.leb andb].
-      unfold memlm. cbn [existsb]. rewrite lm_eqb_refl. cbn [orb remove_lm]. rewrite lm_eqb_refl. now apply IH.
+    - cbn [app disc_gen]. rewrite Hb. unfold memlm. cbn [existsb]. rewrite lm_eqb_refl. cbn [orb remove_lm].
+      rewrite lm_eqb_refl. now apply IH.
+    - cbn [app disc_gen]. rewrite Hb. unfold memlm. cbn [existsb]. rewrite lm_eqb_refl. cbn [orb remove_lm].
+      rewrite lm_eqb_refl. now apply IH.
   Qed.
 
-  Lemma disc_plain_handler c k m q : forallb plain_op (c_script c) = true ->
-    disc_gen rank sp [(L_iface k, m)] (handler c ++ q) = disc_gen rank sp [(L_iface k, m)] q.
+  Lemma disc_plain_handler c H q : below rank H L_root = true -> forallb plain_op (c_script c) = true ->
+    disc_gen rank sp H (handler c ++ q) = disc_gen rank sp H q.
   Proof.
-    intros Hp. unfold handler. cbn [app disc_gen]. rewrite <- app_assoc. rewrite disc_plain_ops by assumption. reflexivity.
+    intros Hb Hp. unfold handler. cbn [app disc_gen]. rewrite <- app_assoc. rewrite disc_plain_ops by assumption. reflexivity.
   Qed.
 
-  Lemma disc_plain_body c : plain_method c = true -> disc_gen rank sp [] (body c) = Some [].
+  Ltac norm :=
+    repeat (progress (cbn [app disc_gen below forallb fst existsb remove_lm orb andb Nat.ltb Nat.leb]; unfold memlm;
+                      rewrite ?lm_eqb_refl, ?rank_root, ?rank_iface, ?rank_props)).
+  Ltac through_handler Hp :=
+    rewrite disc_plain_handler; [|norm; reflexivity|exact Hp].
+
+  Lemma disc_plain_body c : plain_handler c = true -> disc_gen rank sp [] (body c) = Some [].
   Proof.
-    unfold plain_method, body. intros Hp. destruct (c_kind c); try discriminate.
-    - cbn [app disc_gen below forallb]. unfold memlm. cbn [existsb]. rewrite lm_eqb_refl. cbn [orb remove_lm].
-      rewrite lm_eqb_refl. cbn [disc_gen below forallb].
-      rewrite disc_plain_handler by assumption. cbn [disc_gen]. unfold memlm. cbn [existsb]. rewrite lm_eqb_refl.
-      cbn [orb remove_lm]. rewrite lm_eqb_refl. reflexivity.
-    - cbn [app disc_gen below forallb]. rewrite disc_plain_handler by assumption. cbn [disc_gen]. unfold memlm.
-      cbn [existsb]. rewrite lm_eqb_refl. cbn [orb remove_lm]. rewrite lm_eqb_refl. reflexivity.
+    unfold plain_handler, body. intros Hp. destruct (c_kind c); try discriminate.
+    - norm. through_handler Hp. norm. reflexivity.
+    - norm. through_handler Hp. norm. reflexivity.
+    - norm. through_handler Hp. norm. reflexivity.
+    - norm. through_handler Hp. through_handler Hp. norm. reflexivity.
+    - norm. through_handler Hp. norm. reflexivity.
+    - norm. through_handler Hp. norm. reflexivity.
     - reflexivity.
   Qed.
 End PlainDisc.
 
-Theorem methods_only_safe calls : methods_only calls = true -> safe calls = true.
+(* every burst of method and property handlers that await / register / remove / emit respects the lock order *)
+Theorem handlers_only_safe calls : handlers_only calls = true -> safe calls = true.
 Proof.
   intros Hm. unfold safe, disciplined. apply forallb_forall. intros c Hc.
-  assert (Hp : plain_method c = true) by (unfold methods_only in Hm; rewrite forallb_forall in Hm; auto).
-  assert (Hr : rank_of calls L_root = 1) by reflexivity.
-  assert (Hi : forall k, rank_of calls (L_iface k) = 0).
-  { intros k. unfold rank_of. rewrite iface_not_root, (methods_post calls Hm). reflexivity. }
+  assert (Hp : plain_handler c = true) by (unfold handlers_only in Hm; rewrite forallb_forall in Hm; auto).
+  assert (Hr : rank_of calls L_root = 2) by reflexivity.
+  assert (Hi : forall k, rank_of calls (L_iface k) = 1).
+  { intros k. unfold rank_of. rewrite iface_not_root, (handlers_post calls Hm), iface_is_user. reflexivity. }
+  assert (Hq : forall k, rank_of calls (L_props k) = 0).
+  { intros k. unfold rank_of. rewrite props_not_root, (handlers_post calls Hm), props_not_user. reflexivity. }
   unfold disc_call, Progress.disc_run, dispatch. cbn [app disc_gen below forallb].
   unfold memlm. cbn [existsb]. rewrite lm_eqb_refl. cbn [orb remove_lm]. rewrite lm_eqb_refl.
-  pose proof (disc_plain_body (rank_of calls) Hr Hi (body_ok (rank_of calls)) c Hp) as Hb.
-  pose proof (disc_plain_body (rank_of calls) Hr Hi (fun _ => false) c Hp) as Hb0.
-  destruct (c_kind c) eqn:K; try (unfold plain_method in Hp; rewrite K in Hp; discriminate).
-  - destruct (c_spawn c); [|now rewrite Hb]. cbn [disc_gen]. unfold body_ok. now rewrite Hb0.
-  - destruct (c_spawn c); [|now rewrite Hb]. cbn [disc_gen]. unfold body_ok. now rewrite Hb0.
-  - now rewrite Hb.
+  pose proof (disc_plain_body (rank_of calls) Hr Hi Hq (body_ok (rank_of calls)) c Hp) as Hb.
+  pose proof (disc_plain_body (rank_of calls) Hr Hi Hq (fun _ => false) c Hp) as Hb0.
+  destruct (c_kind c) eqn:K; try (unfold plain_handler in Hp; rewrite K in Hp; discriminate);
+    try (destruct (c_spawn c); [cbn [disc_gen]; unfold body_ok; now rewrite Hb0|now rewrite Hb]).
+  now rewrite Hb.
 Qed.
+
+Lemma methods_are_handlers calls : methods_only calls = true -> handlers_only calls = true.
+Proof.
+  unfold methods_only, handlers_only. rewrite !forallb_forall. intros H c Hc. specialize (H c Hc).
+  unfold plain_method in H. unfold plain_handler. destruct (c_kind c); try discriminate; assumption.
+Qed.
+
+Theorem methods_only_safe calls : methods_only calls = true -> safe calls = true.
+Proof. intros H. apply handlers_only_safe. now apply methods_are_handlers. Qed.
 
 (* ---- the verdicts of the two-phase check are backed by real runs of the model ---- *)
 Lemma all_done_b_sound s : wf s -> all_done_b s = true -> all_done s.
